@@ -363,7 +363,7 @@ def install_ns(mon):
         if live is None or live.size != self.nlive:
             V("initial-live-set-size", "not nlive rows")
             return
-        if not np.all(np.diff(live["logL"]) >= 0):
+        if not np.all(live["logL"][1:] >= live["logL"][:-1]):
             V("initial-live-set-not-sorted", "")
         if not np.all(np.isfinite(live["logP"])) or not np.all(
                 np.isfinite(live["logL"])):
